@@ -46,60 +46,38 @@ func (r CharRecipe) n() *big.Int {
 // Unfortunately, we can't take the log until the very end, so we will
 // be dealing with some very large numbers.
 func n(allowed set.Set, required set.Set, length int) *big.Int {
-	// totalCount is the total number of permutations possible when a
-	// password of length n is generated from the set R, which is the
-	// union of all sets in the password recipe.
+	// R is the union of all sets in the password recipe: the alphabet
+	// that passwords of length n are generated from.
 	R := unionAll(allowed.Union(required))
-	totalCount := &big.Int{}
-	totalCount.Exp(toBigInt(R.Cardinality()), toBigInt(length), nil) // #nosec G105
 
-	// Each of these sets of sets represents a password recipe that we
-	// will reject and thus must subtract from our total count.
-	// We want to reject all subsets of the set of required sets except
-	// the set of required sets itself.
-	// For example, if L and D are required, rejectedSubsets
-	// will contain {L} and {D} and will not contain {L, D}.
-	// Optional sets are not part of this at all because they will
-	// simply be tacked on at the end.
-	powerSet := required.PowerSet()
-	rejectedSubsets := set.NewSet()
-	for el := range powerSet.Iter() {
-		elSet, ok := el.(set.Set)
-		if ok && !required.Equal(elSet) {
-			rejectedSubsets.Add(elSet)
+	// A password is rejected when it misses at least one required set.
+	// The required sets may overlap (say, Digits and a custom "357"), so we
+	// cannot treat them as a partition of the alphabet. Count by
+	// inclusion-exclusion instead: for every sub-family of the required
+	// sets, the passwords that avoid every set in that sub-family are the
+	// ones over R minus the union of the sub-family; they are added for
+	// sub-families of even size and subtracted for those of odd size.
+	// The empty sub-family contributes the total count |R|^length.
+	count := &big.Int{}
+	for el := range required.PowerSet().Iter() {
+		subset, ok := el.(set.Set)
+		if !ok {
+			continue
+		}
+		remaining := R.Difference(unionAll(subset))
+		term := &big.Int{}
+		term.Exp(toBigInt(remaining.Cardinality()), toBigInt(length), nil) // #nosec G105
+		if subset.Cardinality()%2 == 1 {
+			count.Sub(count, term)
+		} else {
+			count.Add(count, term)
 		}
 	}
-
-	// When requiredSets is {{}} (it is a set containing only the empty set),
-	// powerSet(requiredSets) will also be {{}};
-	// thus, rejectedSubsets will be empty, the reducing
-	// function below will not run, and rejectedCount will be 0,
-	// terminating the recursion.
-
-	rejectedCount := sumAll(
-		rejectedSubsets,
-		func(subset set.Set) *big.Int {
-			return n(allowed, subset, length)
-		},
-	)
-
-	return totalCount.Sub(totalCount, rejectedCount)
+	return count
 }
 
 func toBigInt(i int) *big.Int {
 	return big.NewInt(int64(i))
-}
-
-// Mimic the mathematical sum operator
-func sumAll(s set.Set, transform func(s set.Set) *big.Int) *big.Int {
-	sum := &big.Int{}
-	for el := range s.Iter() {
-		elSet, ok := el.(set.Set)
-		if ok {
-			sum.Add(sum, transform(elSet))
-		}
-	}
-	return sum
 }
 
 // Mimic the mathematical big union (bigcup) operator
